@@ -293,6 +293,67 @@ func genC03(tier, out string, sum *Summary) {
 			}
 		}
 	}
+	// one hostile argument among well-formed ones: every position of every built-in holds the leaf, the others hold a
+	// non-empty value of the type the position wants (a nil map merged WITH something, a NaN padded BY something ...)
+	{
+		good := func(t string) string {
+			switch {
+			case strings.Contains(t, "number"):
+				return "`2`"
+			case t == "string":
+				return "'ab'"
+			case strings.Contains(t, "array"):
+				return "`[1, \"a\"]`"
+			case t == "object":
+				return "`{\"a\": 1}`"
+			}
+			return "`[3]`"
+		}
+		k := 0
+		for _, f := range sigs {
+			hi := len(f.args)
+			if f.vary {
+				hi = 3
+			}
+			for n := 2; n <= hi; n++ {
+				if n < f.min {
+					continue
+				}
+				for pos := 0; pos < n; pos++ {
+					parts := make([]string, n)
+					for j := range parts {
+						t := f.args[0]
+						if j < len(f.args) {
+							t = f.args[j]
+						}
+						switch {
+						case t == "&" && j == pos:
+							parts[j] = "&$.x"
+						case t == "&":
+							parts[j] = "&@"
+						case j == pos:
+							parts[j] = "x"
+						default:
+							parts[j] = good(t)
+						}
+					}
+					e := f.name + "(" + strings.Join(parts, ", ") + ")"
+					for _, lf := range leaves {
+						k++
+						if tier != "thorough" && k%2 != 0 {
+							continue
+						}
+						if strings.HasPrefix(f.name, "pad_") && pos == 1 {
+							if d, ok := toDec(lf); ok && !d.IsNaN() && !d.IsInf(0) && decimal128.Abs(d).Cmp(decimal128.New(1000, 0)).Greater() {
+								continue // the width decides the size of the result
+							}
+						}
+						quiet(e, map[string]any{"x": lf}, "one-hostile-argument")
+					}
+				}
+			}
+		}
+	}
 	// every start/stop (and a few steps) around the ends of short ASCII strings, mixed-width strings and arrays
 	for _, tgt := range []string{"'hello'", "'h'", "''", "'héllo€'", "`[1,2,3,4,5]`", "`[]`", "@"} {
 		for a := -7; a <= 7; a++ {
@@ -522,6 +583,17 @@ func genC04(tier, out string, sum *Summary) {
 					emit(fmt.Sprintf(wrap, body+tail), "invalid")
 				}
 			}
+		}
+	}
+	// \u is followed by exactly four hexadecimal digits: no sign, blank, prefix, separator or digit of another script
+	for _, h := range []string{"+041", "-041", " 041", "0x41", "_041", "004", "00g1", "0 41", "+1f6", "1_00", "\u0664\u0661\u0660\u0660", "\uff10\uff10\uff14\uff11", "004 ", "0041"[:3] + "\\", "-0041", "+0041"} {
+		for _, form := range []string{"\"\\u%s\"", "a.\"\\u%s\"", "{\"\\u%s\": a}", "`\"\\u%s\"`", "\"x\\u%sy\"", "\"\\ud83d\\u%s\"", "`{\"\\u%s\": 1}`", "`[\"\\u%s\"]`"} {
+			emit(fmt.Sprintf(form, h), "invalid")
+		}
+	}
+	for _, h := range []string{"+e00", "-e00", "de0", "DE0 ", "de0g", "+de00", "0xde", "d_00"} {
+		for _, form := range []string{"\"\\ud83d\\u%s\"", "a.\"\\uD83D\\u%s\"", "`\"\\ud83d\\u%s\"`", "{\"\\ud83d\\u%s\": a}"} {
+			emit(fmt.Sprintf(form, h), "invalid")
 		}
 	}
 	// letters outside ASCII never continue an unquoted identifier, whatever their low byte looks like
